@@ -97,6 +97,27 @@ class S3LockProviderBase(LockProvider):
         # Guarded by _state_lock: accessed from both the owner and heartbeat threads.
         self._etag: Optional[str] = None
         self._state_lock = threading.Lock()
+        # Number of lock-object writes made by this instance (CAS providers).
+        # Never reset, so no two writes of this instance share a body.
+        self._write_seq = 0
+
+    def _next_body(self) -> bytes:
+        """Body for the next write of the lock object: "<lock_id>:<n>".
+
+        S3 ETags are content hashes, so rewriting the same body (a renewal)
+        leaves the ETag unchanged, and an If-Match takeover keyed to an ETag
+        observed BEFORE the renewal would still succeed. A fresh body per
+        write gives every write a fresh ETag; the owner is the prefix.
+        """
+        with self._state_lock:
+            self._write_seq += 1
+            seq = self._write_seq
+        return f"{self.lock_id}:{seq}".encode('utf-8')
+
+    @staticmethod
+    def _owner_of(content: str) -> str:
+        """Owner id of a lock body ("<lock_id>" or "<lock_id>:<n>")."""
+        return content.split(":", 1)[0]
 
     def acquire(self) -> bool:
         start_time = time.time()
@@ -143,7 +164,7 @@ class S3LockProviderBase(LockProvider):
         for attempt in range(2):
             try:
                 resp = self.s3.get_object(Bucket=self.bucket, Key=self.key)
-                content = resp['Body'].read().decode('utf-8')
+                content = self._owner_of(resp['Body'].read().decode('utf-8'))
                 if content != self.lock_id:
                     self.is_locked = False
                     return False
@@ -204,7 +225,7 @@ class S3LockProviderBase(LockProvider):
         try:
             # Safe release: Check if we still own the lock
             resp = self.s3.get_object(Bucket=self.bucket, Key=self.key)
-            content = resp['Body'].read().decode('utf-8')
+            content = self._owner_of(resp['Body'].read().decode('utf-8'))
 
             if content == self.lock_id:
                 self.s3.delete_object(Bucket=self.bucket, Key=self.key)
@@ -248,7 +269,7 @@ class S3LockProvider(S3LockProviderBase):
             resp = self.s3.put_object(
                 Bucket=self.bucket,
                 Key=self.key,
-                Body=self.lock_id.encode('utf-8'),
+                Body=self._next_body(),
                 IfNoneMatch='*'
             )
             with self._state_lock:
@@ -292,7 +313,7 @@ class S3LockProvider(S3LockProviderBase):
             put_resp = self.s3.put_object(
                 Bucket=self.bucket,
                 Key=self.key,
-                Body=self.lock_id.encode('utf-8'),
+                Body=self._next_body(),
                 IfMatch=etag,
             )
             with self._state_lock:
@@ -319,7 +340,7 @@ class S3LockProvider(S3LockProviderBase):
             resp = self.s3.put_object(
                 Bucket=self.bucket,
                 Key=self.key,
-                Body=self.lock_id.encode('utf-8'),
+                Body=self._next_body(),
                 IfMatch=etag,
             )
             with self._state_lock:
